@@ -10,6 +10,9 @@ import SophtVerif.Props.C07
 import Mathlib.Tactic.Ring
 import Mathlib.Tactic.FieldSimp
 import Mathlib.Tactic.LinearCombination
+import Mathlib.Tactic.NormNum
+import Mathlib.Tactic.FinCases
+import Mathlib.Data.Rat.Defs
 import Mathlib.Algebra.BigOperators.Group.List.Basic
 
 set_option linter.unusedVariables false
@@ -137,5 +140,21 @@ theorem C08_fluid_plus_body_zero {K : Type} [Field K] [LinearOrder K] [IsStrictO
     | nil => simp
     | cons a t ih => simp only [List.map_cons, List.sum_cons, Pi.add_apply, Function.comp_apply] at ih ⊢; rw [ih]
   rw [this]; ring
+
+/-! ### non-vacuity -/
+
+/-- the moment theorem applies to a concrete orthogonal director (quarter turn about z) with two markers carrying
+non-parallel forces: both sides evaluate to the same non-zero vector -/
+example :
+    let Q : Matrix (Fin 3) (Fin 3) ℚ := !![0, 1, 0; -1, 0, 0; 0, 0, 1]
+    let ms : List (Marker ℚ) := [⟨![1, 0, 0], ![0, 2, 0]⟩, ⟨![0, 1, 1], ![3, 0, -1]⟩]
+    Qᵀ * Q = 1 ∧ markerMoment ![1, 1, 1] ![0, 0, 0] ms ≠ 0 := by
+  intro Q ms
+  constructor
+  · ext i j; fin_cases i <;> fin_cases j <;> simp [Q, Matrix.mul_apply, Fin.sum_univ_three]
+  · intro h
+    have := congrFun h 0
+    simp [markerMoment, ms, markerPos, crossProduct] at this
+    norm_num at this
 
 end Sopht.Props.C08
